@@ -108,6 +108,14 @@ ODD_PROGRAMS = [
     b"    map call M as M2(\n        x = split M1.ys,\n    )\n\n    map call M as M1(\n        x = split M2.ys,\n    )\n\n    return (\n        o = M2.ys,\n    )\n}\n",
     STAGE + b"pipeline P(\n    out int y,\n)\n{\n    call S as C(\n        x = B.y,\n    )\n\n    call S as B(\n        x = A.y,\n    )\n\n    call S as A(\n        x = C.y,\n    )\n\n    return (\n        y = C.y,\n    )\n}\n",
     STAGE + b"pipeline P(\n    in  int[] xs,\n    out int[] y,\n)\n{\n    map call S as B(\n        x = split A.y,\n    )\n\n    map call S as A(\n        x = split self.xs,\n    )\n\n    return (\n        y = B.y,\n    )\n}\n\ncall P(\n    xs = [1, 2],\n)\n",
+    # a call mapped over an output of a call that does not exist (also in its disabling condition,
+    # also next to a split that is valid), over a parameter that does not exist
+    STAGE + b"pipeline P(\n    out int[] y,\n)\n{\n    map call S(\n        x = split NOPE.ys,\n    )\n\n    return (\n        y = S.y,\n    )\n}\n",
+    STAGE + b"pipeline P(\n    in  int[] xs,\n    out int[] y,\n)\n{\n    map call S(\n        x = split self.xs,\n    ) using (\n        disabled = split NOPE.flags,\n    )\n\n    return (\n        y = S.y,\n    )\n}\n",
+    STAGE + b"pipeline P(\n    out int[] y,\n)\n{\n    map call S(\n        x = split self.nope,\n    )\n\n    return (\n        y = S.y,\n    )\n}\n",
+    STAGE + b"pipeline P(\n    in  int[] xs,\n    out int[] y,\n)\n{\n    map call S(\n        x = split self.xs,\n        z = split NOPE.ys,\n    )\n\n    return (\n        y = S.y,\n    )\n}\n",
+    STAGE + b"pipeline P(\n    out int[] y,\n)\n{\n    map call S as A(\n        x = split NOPE.ys,\n    )\n\n    map call S as B(\n        x = split A.y,\n    )\n\n    return (\n        y = B.y,\n    )\n}\n",
+    STAGE + b"pipeline P(\n    in  int[] xs,\n    out int[] y,\n)\n{\n    map call S as A(\n        x = split self.xs,\n    ) using (\n        disabled = split NOPE.fs,\n    )\n\n    map call S as B(\n        x = split A.y,\n    )\n\n    return (\n        y = B.y,\n    )\n}\n",
     b"struct T(\n    T a,\n)\n",
     b"struct T(\n    U a,\n)\n\nstruct U(\n    T b,\n)\n",
     b"struct T(\n    int a,\n    int a,\n)\n",
